@@ -35,3 +35,33 @@ fn c37_native_second_thread_after_remove() {
     println!("C37-NATIVE fetches={}", n);
     assert!(n <= 1, "module fetched {} times in one run", n);
 }
+
+// The outcome of the fetch is an environment choice in the model.  Here the rsync binary disappears after the
+// collector was set up, so starting it fails (status Err): the module must still count as attempted once.
+#[test]
+fn c37_native_failed_start_fetched_once() {
+    let _ = crate::process::Process::init();
+    let dir = tempfile::tempdir().unwrap();
+    let script = dir.path().join("fake-rsync.sh");
+    fs::write(&script, "#!/bin/sh\nexit 0\n").unwrap();
+    fs::set_permissions(&script, fs::Permissions::from_mode(0o755)).unwrap();
+    let mut config = Config::default_with_paths(Default::default(), dir.path().join("cache"));
+    config.rsync_command = script.display().to_string();
+    config.rsync_args = Some(vec!["-r".into()]);
+    Collector::init(&config).unwrap();
+    let collector = Collector::new(&config).unwrap().unwrap();
+    let run = collector.start();
+    fs::remove_file(&script).unwrap();
+    let uri = uri::Rsync::from_str("rsync://example.net/module/ca/x.cer").unwrap();
+    run.load_module(&uri);
+    let first_failed = run.metrics.lock().first().map(|m| m.status.is_err()).unwrap_or(false);
+    run.load_module(&uri);
+    std::thread::scope(|scope| {
+        scope.spawn(|| run.load_module(&uri));
+        scope.spawn(|| run.load_module(&uri));
+    });
+    let attempts = run.metrics.lock().len();
+    println!("C37-NATIVE-FAILED-START attempts={} first_failed_to_start={} was_updated={}", attempts, first_failed, run.was_updated(&uri));
+    assert!(first_failed, "fixture: the rsync start was expected to fail");
+    assert!(attempts <= 1, "module fetched {} times in one run after a failed start", attempts);
+}
